@@ -53,6 +53,11 @@ def c06(ctx):
              "path, and no site re-evaluates the same child in a loop; the re-evaluations by design are a reviewed table (loop "
              "condition and body, read-then-write of a compound assignment's destination, the drill-down over nested subscripts). "
              "A target addressed twice (read here, written there) lets a side-effecting subscript select two different slots")
+    rep.rule("C06.R11", "a key of kind k addresses the slot of kind k, for reads and writes alike: KIND computes Array::index and "
+             "Array::index_or_insert for every kind of key with the slot accessors left opaque -- mysterious / null / a boolean / a string go "
+             "to the dictionary under the key of that same kind (and payload), a number to the sequence at that number, an array is an "
+             "InvalidKey error; the read and the write table agree cell by cell")
+    key_slot_rule(ctx, "C06.R11")
     rep.rule("C06.R10", "reading an element always asks the value: ProduceVal::visit_array_subscript evaluates the array, then the subscript, and "
              "yields Val::index(array, subscript) on every non-error path -- no kind of array operand (mysterious, a hole left by "
              "auto-extension ...) gets an answer of its own, so `not indexable` and `invalid key` stay errors (rule shared with C03.R7)")
@@ -252,6 +257,46 @@ def c06(ctx):
     # ---- R9 nested subscripts are applied innermost-first
     subscript_order(ctx)
 
+
+
+def key_slot_rule(ctx, rule):
+    F, rep = ctx.F, ctx.rep
+    VAL = "exec::val::Val"
+    models = {}
+    for n in ("index_dict", "index_dict_or_insert", "index_arr", "index_arr_or_insert"):
+        models["exec::val::Array::" + n] = kind.m_opaque(n)
+    want = {"Undefined": "dict(Undefined)", "Null": "dict(Null)", "Boolean": "dict(Boolean(p))", "String": "dict(String(p))", "Number": "arr(p)", "Array": "Err(InvalidKey)"}
+    n = 0
+    for name in ("index", "index_or_insert"):
+        fn = F.fn("exec::val::Array::" + name)
+        if fn is None:
+            rep.fail(rule, "anchor::" + name, "Array::%s not found" % name)
+            continue
+        rep.analysed(fn)
+        I = kind.Interp(F, models=models)
+        for v in F.adts[VAL]["variants"]:
+            arg = E(VAL, v["name"], *[("sym", "p")] * len(v.get("fields", [])))
+            got = set()
+            for o in I.run(fn, [("sym", "self"), arg]):
+                t = kt.term(o.ret)
+                if t.startswith("Err(InvalidKey"):
+                    got.add("Err(InvalidKey)")
+                elif "index_dict" in t:
+                    inner = t[t.index("(self,") + 6:]
+                    got.add("dict(" + inner[:inner.index(")") + (2 if inner[:inner.index(")") + 1].count("(") else 1) - 1].rstrip(")") + (")" if "(" in inner[:inner.index(")") + 1] else "") + ")")
+                elif "index_arr" in t:
+                    got.add("arr(p)" if "(p)" in t else "arr(?)")
+                else:
+                    got.add(t)
+            if v["name"] == "Number":
+                got.discard("Err(InvalidKey)")      # a write beyond what can be allocated (D5 repair) -- the read has no such case
+            n += 1
+            ok = got == {want.get(v["name"], "?")} and not I.incomplete
+            rep.ob(rule, "key-slot::%s::%s" % (name, v["name"]), ok,
+                   "" if ok else "Array::%s with a key of kind %s addresses %s; the rule is %s -- a value stored under one kind of key is looked up under another" % (name, v["name"], sorted(got), want.get(v["name"])),
+                   fn.loc(), how=want.get(v["name"], "?"))
+    rep.floor(rule, n, 12, "key kinds x {read, write}")
+    rep.exhaustive["C06.R11 key kinds x {index, index_or_insert}"] = True
 
 
 def subscript_order(ctx):
